@@ -177,7 +177,7 @@ class Scratch:
     """an initialised alembic environment in a temp dir; options set in memory on the Config"""
 
     def __init__(self, file_template=None, trunc=None, two_locations=False, recursive=False, timezone=None,
-                 sourceless=False, revision_environment=False, hooks=False, output_encoding=None):
+                 sourceless=False, revision_environment=False, hooks=False, output_encoding=None, bytecode=False):
         self.dir = tempfile.mkdtemp(prefix="c17_")
         self.ini = os.path.join(self.dir, "alembic.ini")
         self.scripts = os.path.join(self.dir, "scripts")
@@ -205,6 +205,9 @@ class Scratch:
             # env.py of the generic template connects to the configured database: an in-memory SQLite
             self.cfg.set_main_option("revision_environment", "true")
             self.cfg.set_main_option("sqlalchemy.url", "sqlite://")
+        # Python's default: importing a revision file leaves its byte code in __pycache__ (the check itself runs with
+        # PYTHONDONTWRITEBYTECODE=1; switched back on only while alembic imports revision files of this scratch directory)
+        self.bytecode = bool(bytecode)
         self.output_encoding = output_encoding
         if output_encoding is not None:
             self.cfg.set_main_option("output_encoding", output_encoding)
@@ -223,7 +226,28 @@ class Scratch:
         self.trunc = trunc if trunc is not None else 40
 
     def fresh(self):
-        return ScriptDirectory.from_config(self.cfg)
+        with self.writing_bytecode():
+            return ScriptDirectory.from_config(self.cfg)
+
+    @contextmanager
+    def writing_bytecode(self):
+        import sys
+        old = sys.dont_write_bytecode
+        if self.bytecode:
+            sys.dont_write_bytecode = False
+        try:
+            yield
+        finally:
+            sys.dont_write_bytecode = old
+
+    def unlink(self, f):
+        """remove a file the harness wants gone, together with the byte code Python cached for it"""
+        import glob
+        os.unlink(f)
+        base = os.path.basename(f)
+        if base.endswith(".py"):
+            for pyc in glob.glob(os.path.join(glob.escape(os.path.dirname(f)), "__pycache__", glob.escape(base[:-3]) + ".*.pyc")):
+                os.unlink(pyc)
 
     def version_path(self, spec):
         """spec: None | location index | {kind: location|subdir|sibling|sibling2|unrelated, idx, relative}"""
@@ -283,7 +307,7 @@ class Scratch:
 
     def options(self):
         return {"timezone": self.timezone, "sourceless": self.sourceless, "revision_environment": self.revision_environment,
-                "hooks": self.hooks, "output_encoding": self.output_encoding}
+                "hooks": self.hooks, "output_encoding": self.output_encoding, "bytecode": self.bytecode}
 
     def encodable(self, texts):
         """can every text be written in the configured output_encoding (Python's own str.encode; default utf-8)?"""
@@ -368,7 +392,7 @@ def run_call(env: Scratch, sd, call, next_id):
     dep = call.get("depends_on")
     res = {}
     import logging
-    with warnings.catch_warnings(record=True) as wlist, contextlib.redirect_stdout(io.StringIO()):
+    with warnings.catch_warnings(record=True) as wlist, contextlib.redirect_stdout(io.StringIO()), env.writing_bytecode():
         warnings.simplefilter("always")
         logging.disable(logging.CRITICAL)   # env.py (revision_environment) configures logging through fileConfig
         try:
